@@ -378,7 +378,7 @@ class Exec(Engine):
             # already ascending? then sorted(a) == a (decided by a side query)
             i, j = fresh("i"), fresh("j")
             q = z3.Solver()
-            q.set(timeout=3000)
+            q.set("rlimit", 20000000)
             q.add(*s.axioms)
             q.add(*p1.pc)
             q.add(0 <= i, i < j, j < a.n, z3.Select(a.arr, i) > z3.Select(a.arr, j))
